@@ -224,6 +224,14 @@ class DfltModel(Comp):
                     s.parse(1, "x", yanggen.to_xml(f2))
                     s.add("ifok", "diff", "t0", "t1", 0, "t3")
                     s.add("ifok", "apply", "t0", "t3")
+                if rng.random() < 0.15:
+                    # move a subtree: unlink it and insert it back with the public lyd_insert_sibling / _child (the
+                    # inserted node is flagged new since 06232b2, so validation looks at it again)
+                    s.add("unlink", "t0#%d" % rng.randrange(0, 30), "t6")
+                    if rng.random() < 0.6:
+                        s.add("ifok", "ins", "sibling", "t0", "t6")
+                    else:
+                        s.add("ifok", "ins", "child", "t0#%d" % rng.randrange(0, 30), "t6")
                 for _ in range(rng.randrange(1, 5)):
                     r = rng.random()
                     if r < 0.35:
@@ -469,10 +477,6 @@ class DfltModel(Comp):
                     t = None
                     if why == {"llpartial"}:
                         t = "dflt-leaflist-partial"
-                    elif "leftover" in why and why <= {"leftover", "llpartial", "missing"}:
-                        # the left-over defaults keep their case alive: the defaults of the choice's default case are
-                        # "missing" then
-                        t = "dflt-nested-case-leftover"
                     return (t, "the validated tree is not the normal form of its explicit content (%s): %s"
                             % (",".join(sorted(why)), a[i - 1][:300]))
                 if kv["A"] != "1":
